@@ -443,7 +443,8 @@ def e2e_walk_2p(ctx, build, scratch, exe, cat, m, tier):
         s = pool.local.streams
         sidx = [s["loom.A/proc.100/thread.101"], s["loom.A/proc.200/thread.201"]]
         prefix = [Ev(sidx[0], "OHx", i32(0, 101) + i64(0)), Ev(sidx[1], "OHx", i32(1, 201) + i64(0))]
-        for k, (la, lb) in enumerate(((b"ttype\0", b"utype\0"), (b"xtype\0", b"ytype\0"))):
+        # the second process leaves its two types unlabelled (empty label): they still are two different types
+        for k, (la, lb) in enumerate(((b"ttype\0", b"utype\0"), (b"\0", b"\0"))):
             prefix += [Ev(sidx[k], m + "Yc", b"", 1, u32(7) + la), Ev(sidx[k], m + "Yc", b"", 1, u32(8) + lb),
                        Ev(sidx[k], m + "Tc", u32(1, 7)), Ev(sidx[k], m + "Tc", u32(2, 8))]
             if m == "V":
